@@ -731,6 +731,14 @@ func cryptoStub(in *Interp, fn *ssa.Function, pkg, name string) StubFn {
 								t, ok = in.bigField[k]
 							}
 							if !ok {
+								// a concrete small integer is that field constant (in the algebra model; the word
+								// models reduce modulo their prime)
+								if c, okc := in.bigConcOf(in.bk(bp)); okc && c.IsInt64() && in.cfg.Field.Name() == "algebra (reals)" {
+									in.frWrite(a[0].(Ptr), in.cfg.Field.Const(c.Int64(), wordW(in.frArr(a[0]))))
+									return a[0]
+								}
+							}
+							if !ok {
 								t = in.cfg.Field.Fresh(in, "elem.SetBigInt", wordW(in.frArr(a[0])))
 								k := in.bk(bp)
 								if k == nil {
